@@ -43,6 +43,8 @@ fn craft_wm_codes(freq: &mut HashMap<usize, u32>, sigma: usize) -> Vec<PrefixCod
         .map(|(&k, &v)| LenInfo(k, v * 2)) // each fragment is 2 bits
         .collect::<Vec<_>>();
 
+    #[cfg(qwt_verif)]
+    crate::verif::permute_ties(&mut f, |x| x.0);
     f.sort_by_key(|x| x.1);
 
     let mut c = vec![0; alph_size * 4];
@@ -126,6 +128,8 @@ where
             *map.entry(c.as_()).or_insert(0usize) += 1;
             map
         });
+        #[cfg(qwt_verif)]
+        let freqs = crate::verif::rehash(freqs);
 
         // println!("entropy: {}", Frequencies::entropy(&freqs));
 
@@ -186,6 +190,10 @@ where
                     .get(s.as_() as usize)
                     .expect("some error occurred during code translation while building huffqwt");
 
+                #[cfg(qwt_verif)]
+                if cur_code.len < shift {
+                    crate::verif::probe(4);
+                }
                 if cur_code.len >= shift {
                     //we put in a qvector
                     let qv_symbol = (cur_code.content >> (cur_code.len - shift)) & 3;
@@ -348,6 +356,8 @@ where
                 let rank_end = prefetch_support[level].approx_rank_unchecked(two_bits, range.end);
 
                 range = (rank_start + offset)..(rank_end + offset);
+                #[cfg(qwt_verif)]
+                crate::verif::probe(6);
                 self.qvs[level + 1].prefetch_info(range.start);
                 self.qvs[level + 1].prefetch_info(range.start + 2048);
 
@@ -627,8 +637,12 @@ where
 
         for level in 0..self.n_levels {
             if cur_i >= self.lens[level] {
+                #[cfg(qwt_verif)]
+                crate::verif::probe(0);
                 break;
             }
+            #[cfg(qwt_verif)]
+            crate::verif::sched_point();
 
             self.qvs[level].prefetch_info(cur_i);
             let symbol = self.qvs[level].get_unchecked(cur_i);
@@ -739,6 +753,8 @@ where
         let mut level = 0;
 
         while shift >= 0 {
+            #[cfg(qwt_verif)]
+            crate::verif::sched_point();
             let two_bits = ((repr >> shift as usize) & 3) as u8;
 
             let offset = unsafe { self.qvs[level].occs_smaller_unchecked(two_bits) };
@@ -800,6 +816,8 @@ where
 
         let mut level = 0;
         while shift >= 0 {
+            #[cfg(qwt_verif)]
+            crate::verif::sched_point();
             path_off.push(b);
 
             let two_bits = ((repr >> shift as usize) & 3) as u8;
@@ -816,6 +834,8 @@ where
         shift = 0;
         let mut result = i;
         for level in (0..level).rev() {
+            #[cfg(qwt_verif)]
+            crate::verif::sched_point();
             b = path_off[level];
             let rank_b = rank_path_off[level];
             let two_bits = ((repr >> shift as usize) & 3) as u8;
